@@ -1,6 +1,7 @@
 //! cyphermon: monitors over the Cypher front end (parser, planner, executor, evaluator).
 
 pub mod aggr;
+pub mod capi_parity;
 pub mod errors;
 pub mod graph;
 pub mod index;
